@@ -29,6 +29,9 @@ type Result struct {
 	UnexpectedExits []string `json:"unexpected_exits,omitempty"`
 	WallS           float64  `json:"wall_s"`
 	Ports           []int    `json:"ports"`
+	// what the schedule was meant to exercise and did not (e.g. InstallSnapshot)
+	Unmet            []string `json:"unmet,omitempty"`
+	SnapshotInstalls int      `json:"snapshot_installs"`
 }
 
 func main() {
@@ -38,6 +41,7 @@ func main() {
 	schedPath := flag.String("schedule", "", "schedule JSON")
 	keep := flag.Bool("keep", false, "keep raftdirs")
 	deadline := flag.Int("deadline", 300, "overall deadline in seconds")
+	portBase := flag.Int("portbase", 0, "first TCP port to use (0: ports the kernel hands out)")
 	flag.Parse()
 	if *bin == "" || *work == "" || *out == "" || *schedPath == "" {
 		flag.Usage()
@@ -65,8 +69,11 @@ func main() {
 		os.Exit(2)
 	}
 	res.Schedule = sch.Name
-	if sch.Nodes != 1 && sch.Nodes != 3 {
+	if sch.Nodes < 1 || sch.Nodes > 5 {
 		sch.Nodes = 3
+	}
+	if sch.Initial < 1 || sch.Initial > sch.Nodes {
+		sch.Initial = sch.Nodes
 	}
 	if sch.Clients < 1 {
 		sch.Clients = 2
@@ -78,12 +85,16 @@ func main() {
 		fmt.Fprintln(os.Stderr, err)
 		os.Exit(2)
 	}
-	c, err := NewCluster(*bin, *work, *out, rec, sch.Nodes)
+	c, err := NewCluster(*bin, *work, *out, rec, sch.Nodes, *portBase)
 	if err != nil {
 		fmt.Fprintln(os.Stderr, err)
 		os.Exit(2)
 	}
 	c.safeguardOnce = sch.Safeguard
+	c.initial = sch.Initial
+	if sch.TrailingLogs != nil {
+		c.trailingLogs = *sch.TrailingLogs
+	}
 	for _, n := range c.nodes {
 		res.Ports = append(res.Ports, n.port)
 	}
@@ -120,7 +131,7 @@ func main() {
 				fail(inconclusive("orchestrator panic: %v", p))
 			}
 		}()
-		rec.Log("schedule", "name", sch.Name, "nodes", sch.Nodes, "clients", sch.Clients, "seed", sch.Seed)
+		rec.Log("schedule", "name", sch.Name, "nodes", sch.Nodes, "clients", sch.Clients, "seed", sch.Seed, "initial", sch.Initial)
 		if err := r.Setup(); err != nil {
 			fail(err)
 			return
@@ -153,6 +164,8 @@ func main() {
 	rec.Log("end", "status", res.Status)
 	rec.Close()
 	res.Notes = r.notes
+	res.Unmet = r.unmet
+	res.SnapshotInstalls = r.snapshotInstalls
 	c.unexpectedMu.Lock()
 	res.UnexpectedExits = c.unexpectedExits
 	c.unexpectedMu.Unlock()
